@@ -279,7 +279,9 @@ func (g *Gen) propValue(p Prop) (any, any) {
 }
 
 func (g *Gen) extra() any {
-	switch g.R.Intn(7) {
+	switch g.R.Intn(8) {
+	case 7:
+		return nil // (an explicit null is a value like any other: stored, not a removal)
 	case 0:
 		return int64(g.R.Intn(5))
 	case 1:
